@@ -214,6 +214,7 @@ def check_case(qt, mb, out_bytes, stats, desc):
       if code == QUANTIZE and tq(to) is None or code == DEQUANTIZE and ti.type != F16 and tq(ti) is None:
         V('C03:qdq-missing-params', f'sg{gi} {og.tname(to)}')
     # ---------- per operand expectations (C03) and parameter rules (C04) ----------
+    prev_slot = None
     for k, (oin, oout) in enumerate(zip(gin.operators, orig_ops)):
       key, mode, cfg = ops_info[k]
       abits = cfg.activation_tensor_config.num_bits if cfg is not None and \
@@ -223,8 +224,17 @@ def check_case(qt, mb, out_bytes, stats, desc):
         xi, xo = int(xi), int(xo)
         if xi == -1:
           continue
+        # C15: a wrong representation handed to a consumer of a SHARED constant
+        # (one tensor with several readers, or several tensors on one buffer)
+        # is also a failure to "quantize consistently or reject"
+        if prev_slot is not None and len(bad) > prev_slot[0] and prev_slot[1]:
+          V('C15:shared-constant-consumer-mismatch', bad[prev_slot[0]]['what'])
         tin, tout = gin.tensors[xi], gout.tensors[xo]
         const = is_const_in(xi)
+        shared_const = const and tin.type == F32 and (
+            sum(1 for o2 in gin.operators for y in o2.inputs if int(y) == xi) > 1 or
+            sum(1 for g2 in m_in.subgraphs for t2 in g2.tensors if t2.buffer == tin.buffer) > 1)
+        prev_slot = (len(bad), shared_const)
         where = f'sg{gi} op{k} {key} input{slot} ({og.tname(tout)})'
         if tin.type != F32:
           if tout.type != tin.type or xo != xi or tq(tout) is not None:
@@ -274,6 +284,9 @@ def check_case(qt, mb, out_bytes, stats, desc):
             V('C03:static-operand-dtype', f'{where}: dtype {tout.type}, expected {INT_OF_BITS[abits]}')
         elif tout.type != F32:
           V('C03:float-op-writes-nonfloat', f'{where}: dtype {tout.type}')
+      if prev_slot is not None and len(bad) > prev_slot[0] and prev_slot[1]:
+        V('C15:shared-constant-consumer-mismatch', bad[prev_slot[0]]['what'])
+      prev_slot = None
       # ----- C04 op-level rules (static ops) -----
       if mode != 'static' or key is None:
         continue
@@ -431,6 +444,10 @@ def check_case(qt, mb, out_bytes, stats, desc):
       sc, zp, qd = q
       shape = [1] * orig.ndim
       if len(sc) > 1:
+        if not (0 <= qd < orig.ndim and len(sc) == orig.shape[qd] and len(zp) == len(sc)):
+          V('C05:parameters-do-not-fit-the-tensor', f'sg{gi} {nm}: {len(sc)} scales / {len(zp)} zero points '
+            f'for shape {list(orig.shape)}, quantized dimension {qd}: the stored codes cannot be decoded')
+          continue
         shape[qd] = len(sc)
       s_b = sc.astype(np.float64).reshape(shape) if orig.ndim else sc.astype(np.float64)[0]
       z_b = zp.astype(np.float64).reshape(shape) if orig.ndim else float(zp[0])
@@ -538,11 +555,30 @@ def main():
         continue
       yield mb, qt, None, desc, dict(info, real_stats=True, directed='fp16-range')
 
+  def directed_same_tensor(n):
+    """ONE constant tensor read by two ops whose exactly-scoped rules select
+    DIFFERENT representations (int8 / int4 / float16, weight-only / dynamic):
+    must be rejected or come out consistent (C15), and an op that is accepted
+    must run in the mode its rule selected (C03)"""
+    import re as _re
+    cfgs = ['wo8', 'wo8s', 'wo4', 'fp16', 'drq8', 'drq8t', 'drq4']
+    for _ in range(n):
+      mb, info = gg.shared_weight_model(rng)
+      qt = quantizer.Quantizer(bytearray(mb))
+      ca, cb = rng.sample(cfgs, 2)
+      ncfg = gr.named_configs()
+      desc = gr.apply_rules(qt, [('^' + _re.escape('serving_default/fc0/out;') + '$', '*', ncfg[ca][0], ca),
+                                 ('^' + _re.escape('serving_default/fc1/out;') + '$', '*', ncfg[cb][0], cb)])
+      if len(desc) < 2:
+        continue
+      yield mb, qt, None, desc, dict(info, real_stats=True, directed='same-tensor-two-modes')
+
   import itertools
   for mb, qt, stats, desc, info in itertools.chain(
       cg.gen_cases(rng, n_models), directed_shared(1500 if tier == 'thorough' else 120),
       directed_overflow(12 if tier == 'thorough' else 3),
-      directed_fp16_range(300 if tier == 'thorough' else 30)):
+      directed_fp16_range(300 if tier == 'thorough' else 30),
+      directed_same_tensor(400 if tier == 'thorough' else 40)):
     dist['cases'] += 1
     if info.get('directed'):
       dist['directed:' + info['directed']] += 1
